@@ -1,7 +1,8 @@
 (* Proofs/SqlProofs2.v — ReadSQL with coercions and Precision > 0 (property C19, second wave).
    Everything here is about the executed model functions of Model/Sql.v (col_scan, read_sql, to_sql);
-   the auxiliary formulations (dispatch, gen_scan, scan_gen, prep, spec_read_gen) are proved equal to /
-   are specifications of them.
+   the auxiliary formulations (dispatch, gen_scan, scan_gen) are proved equal to them; the
+   specification-level definitions (fix_val, prep_val, prep, co_of, coerce_fn, g_co, g_of, spec_read_gen,
+   spec_read_must_fail) live in Model/SqlSpec.v, which is also what the oracle of engine "sql" runs.
 
    float.Fixed and strconv.ParseFloat are NOT modelled: they stay arbitrary functions
    [fixed : N -> Z -> N] and [pf : bytes -> option N] (section variables), so every statement below
@@ -14,28 +15,6 @@ Local Open Scope N_scope.
 
 Definition out_map {A B} (f : A -> B) (o : outcome A) : outcome B :=
   match o with Ok a => Ok (f a) | Fail => Fail | Panic => Panic end.
-
-(* float.Fixed applied to a driver value when Precision > 0 *)
-Definition fix_val (fixed : N -> Z -> N) (prec : Z) (v : dval) : dval :=
-  match v with
-  | DFloat x => DFloat (if (0 <? prec)%Z then fixed x prec else x)
-  | _ => v
-  end.
-
-(* the values of one column after coercion [g] (None = the coercion reports an error) and rounding;
-   a NULL never reaches the coercion *)
-Definition prep_val (g : dval -> option dval) (fixed : N -> Z -> N) (prec : Z) (v : dval) : option dval :=
-  match v with
-  | DNull => Some DNull
-  | _ => option_map (fix_val fixed prec) (g v)
-  end.
-Definition prep (g : dval -> option dval) (fixed : N -> Z -> N) (prec : Z) (vals : list dval)
-  : option (list dval) :=
-  opt_all (map (prep_val g fixed prec) vals).
-
-(* the coercion entry of the configuration for a column name *)
-Definition co_of (conf : sql_config) (name : bytes) : option coerce_kind :=
-  match q_coerce conf with Some m => coerce_lookup m name | None => None end.
 
 (* a column with its coercion and precision removed *)
 Definition strip (c : column) : column :=
@@ -69,6 +48,10 @@ Section Read2.
   Notation read_row := (read_row fixed pf).
   Notation read_rows := (read_rows fixed pf).
   Notation read_sql := (read_sql fixed pf).
+  Notation coerce_fn := (coerce_fn pf).
+  Notation g_co := (g_co pf).
+  Notation g_of := (g_of pf).
+  Notation spec_read_gen := (spec_read_gen fixed pf).
 
   (* ================================================================ (a) the scanner *)
 
@@ -83,19 +66,6 @@ Section Read2.
     | DNull => col_null c
     | DOther => Fail
     end.
-
-  (* the two shipped coercions as functions on driver values *)
-  Definition coerce_fn (k : coerce_kind) (v : dval) : option dval :=
-    match k, v with
-    | CoInt64ToBool, DInt z => Some (DBool (negb (z =? 0)%Z))
-    | CoStringToFloat, DStr s => option_map DFloat (pf s)
-    | _, _ => None
-    end.
-
-  Definition g_co (co : option coerce_kind) : dval -> option dval :=
-    match co with Some k => coerce_fn k | None => Some end.
-
-  Definition g_of (conf : sql_config) (name : bytes) : dval -> option dval := g_co (co_of conf name).
 
   Section Generic.
     (* the coercion as an arbitrary Gallina function *)
@@ -300,20 +270,6 @@ Section Read2.
   Qed.
 
   (* ================================================================ (c) the whole result set *)
-
-  (* the frame the property demands for a result set read with configuration conf: as IOCorr.spec_read,
-     the values of column j first going through the coercion configured for its name and float.Fixed *)
-  Definition spec_read_gen (conf : sql_config) (names : list bytes) (rows : list (list dval))
-    : option (list (bytes * coldata)) :=
-    if negb (forallb (fun r => Nat.eqb (length r) (length names)) rows) then None
-    else if negb (nodupb names && forallb check_name names) then None
-    else if Nat.eqb (length rows) 0 then None
-    else option_map (combine names)
-           (opt_all (map (fun j =>
-                            match prep (g_of conf (nth j names [])) fixed (q_precision conf) (column_vals rows j) with
-                            | Some vals' => spec_column vals'
-                            | None => None
-                            end) (seq 0 (length names)))).
 
   (* the "ensure any column in the coercion map exists" block runs with colNames = nil: it never reports *)
   Lemma coerce_check_nil m : coerce_check m [] = true.
@@ -904,5 +860,129 @@ Section Read2.
     - intros ->. destruct k; exact Hrej.
     - unfold g_of. rewrite Hk. simpl. destruct k, v; simpl in *; try reflexivity; try contradiction.
       now rewrite Hrej.
+  Qed.
+
+  (* ================================================================ reads that must fail (the oracle's
+     spec_read_must_fail of Model/SqlSpec.v) *)
+
+  (* the column has not seen a value yet / holds int or bool values *)
+  Definition col_fresh (c : column) : Prop :=
+    c_ptr c = PNil /\ c_kind c = KInvalid /\ c_coerce c = None.
+  Definition col_int_or_bool (c : column) : Prop :=
+    (c_kind c = KInt \/ c_kind c = KBool) /\ is_pnil (c_ptr c) = false /\ c_coerce c = None.
+
+  Lemma col_int_or_bool_step c v c' :
+    col_int_or_bool c -> col_scan c v = Ok c' -> col_int_or_bool c'.
+  Proof.
+    intros (Hk & Hp & Hco) H. rewrite col_scan_none in H by exact Hco.
+    destruct v; simpl in H; try discriminate.
+    - inversion H; subst; clear H. unfold col_int. rewrite Hp. repeat split; auto.
+    - inversion H; subst; clear H. unfold col_float. rewrite Hp. repeat split; auto.
+    - inversion H; subst; clear H. unfold col_bool. rewrite Hp. repeat split; auto.
+    - inversion H; subst; clear H. unfold col_string. rewrite Hp. repeat split; auto.
+    - inversion H; subst; clear H. unfold col_string. rewrite Hp. repeat split; auto.
+    - unfold col_null in H. destruct Hk as [Hk|Hk]; rewrite Hk in H; discriminate.
+  Qed.
+
+  Lemma scan_col_null_in_int_or_bool : forall vals c c',
+    col_int_or_bool c -> existsb spec_is_null vals = true -> scan_col c vals <> Ok c'.
+  Proof.
+    induction vals as [|v vs IH]; intros c c' Hc Hex; [discriminate|].
+    cbn [SqlProofs.scan_col]. destruct (col_scan c v) as [c1| |] eqn:E; simpl; try discriminate.
+    simpl in Hex. destruct v; simpl in Hex;
+      try (apply IH; [exact (col_int_or_bool_step _ _ _ Hc E)|exact Hex]).
+    destruct Hc as (Hk & _ & Hco).
+    rewrite (null_in_int_or_bool_rejected fixed pf c Hco Hk) in E. discriminate.
+  Qed.
+
+  Lemma scan_col_null_after_int_or_bool : forall vals c c',
+    col_fresh c -> null_after_int_or_bool vals = true -> scan_col c vals <> Ok c'.
+  Proof.
+    induction vals as [|v vs IH]; intros c c' Hc Hn; [discriminate|].
+    destruct Hc as (Hp & Hk & Hco).
+    cbn [SqlProofs.scan_col]. rewrite col_scan_none by exact Hco.
+    destruct v; simpl in Hn; try discriminate; cbn [dispatch obind].
+    - apply scan_col_null_in_int_or_bool; [|exact Hn].
+      unfold col_int. rewrite Hp. simpl. repeat split; auto.
+    - apply scan_col_null_in_int_or_bool; [|exact Hn].
+      unfold col_bool. rewrite Hp. simpl. repeat split; auto.
+    - unfold col_null. rewrite Hk. cbn [obind]. apply IH; [|exact Hn].
+      unfold col_fresh. simpl. auto.
+  Qed.
+
+  (* column level: a column that makes the read fail is never scanned to the end *)
+  Lemma scan_col_must_fail conf name vals c' :
+    col_must_fail fixed pf conf name vals = true ->
+    scan_col (new_column (q_precision conf) (co_of conf name)) vals <> Ok c'.
+  Proof.
+    unfold col_must_fail. intros H.
+    destruct (prep (g_of conf name) fixed (q_precision conf) vals) as [vals'|] eqn:Ep.
+    - pose proof (scan_gen_strip (g_co (co_of conf name)) vals vals'
+                                 (new_column (q_precision conf) (co_of conf name)) Ep) as Hs.
+      change (strip (new_column (q_precision conf) (co_of conf name))) with (new_column 0 None) in Hs.
+      rewrite scan_col_gen. cbn [c_coerce new_column].
+      intros E. rewrite E in Hs. simpl in Hs.
+      revert Hs. apply scan_col_null_after_int_or_bool; [|exact H].
+      unfold col_fresh. simpl. auto.
+    - rewrite (scan_col_prep_error vals (q_precision conf) (co_of conf name) Ep). discriminate.
+  Qed.
+
+  (* the row loop scans column j value after value *)
+  Lemma scan_row_nth : forall cols row cols' j c,
+    scan_row cols row = Ok cols' -> nth_error cols j = Some c ->
+    exists c', col_scan c (nth j row DNull) = Ok c' /\ nth_error cols' j = Some c'.
+  Proof.
+    induction cols as [|c0 cs IH]; intros row cols' j c; destruct row as [|v0 vs]; simpl; try discriminate.
+    - intros _ H. destruct j; discriminate.
+    - destruct (col_scan c0 v0) as [c1| |] eqn:E1; simpl; try discriminate.
+      destruct (scan_row cs vs) as [cs1| |] eqn:E2; simpl; try discriminate.
+      intros H Hc. inversion H; subst; clear H. destruct j as [|j]; simpl in *.
+      + inversion Hc; subst. eauto.
+      + eapply IH; eauto.
+  Qed.
+
+  Lemma run_rows_nth : forall rows cols finals j c,
+    run_rows cols rows = Ok finals -> nth_error cols j = Some c ->
+    exists c', scan_col c (column_vals rows j) = Ok c' /\ nth_error finals j = Some c'.
+  Proof.
+    induction rows as [|r rs IH]; intros cols finals j c H Hc.
+    - simpl in H. inversion H; subst. exists c. split; [reflexivity|exact Hc].
+    - cbn [SqlProofs.run_rows] in H.
+      destruct (scan_row cols r) as [cols1| |] eqn:E; simpl in H; try discriminate.
+      destruct (scan_row_nth _ _ _ _ _ E Hc) as (c1 & Hs & Hn).
+      destruct (IH _ _ _ _ H Hn) as (c' & Hs' & Hn').
+      exists c'. split; [|exact Hn'].
+      unfold column_vals. cbn [map SqlProofs.scan_col]. rewrite Hs. exact Hs'.
+  Qed.
+
+  (* C19_read_must_fail: where the specification says the read must fail, ReadSQL returns Err *)
+  Lemma read_sql_must_fail conf names rows :
+    spec_read_must_fail fixed pf conf names rows = true ->
+    read_sql conf (mkRS names rows) no_faults = Fail.
+  Proof.
+    unfold spec_read_must_fail. intros H. apply andb_true_iff in H as [_ H].
+    apply existsb_exists in H as (j & Hj & Hcol). apply in_seq in Hj. destruct Hj as [_ Hj]. simpl in Hj.
+    apply outcome_fail; [|apply read_sql_no_panic2].
+    intros res. unfold Sql.read_sql. cbn [sf_prepare sf_query sf_row no_faults]. unfold Sql.io_read_sql.
+    cbn [rs_names rs_rows].
+    destruct rows as [|r rs].
+    { exfalso. unfold col_must_fail in Hcol. simpl in Hcol. discriminate. }
+    rewrite read_rows_first2.
+    destruct (run_rows (alloc_columns names conf) (r :: rs)) as [finals| |] eqn:Erun; simpl; try discriminate.
+    exfalso.
+    assert (Hc : nth_error (alloc_columns names conf) j
+                 = Some (new_column (q_precision conf) (co_of conf (nth j names [])))).
+    { rewrite <- (alloc_nth conf names j (new_column 0 None) Hj). apply nth_error_nth'.
+      unfold alloc_columns. now rewrite map_length. }
+    destruct (run_rows_nth _ _ _ _ _ Erun Hc) as (c' & Hs & _).
+    exact (scan_col_must_fail conf (nth j names []) (column_vals (r :: rs) j) c' Hcol Hs).
+  Qed.
+
+  (* the specification is consistent: it never both defines a frame and demands an error *)
+  Lemma spec_read_gen_not_must_fail conf names rows cols :
+    spec_read_gen conf names rows = Some cols -> spec_read_must_fail fixed pf conf names rows = false.
+  Proof.
+    intros Hs. destruct (spec_read_must_fail fixed pf conf names rows) eqn:E; [|reflexivity].
+    apply read_sql_gen_spec in Hs. rewrite (read_sql_must_fail _ _ _ E) in Hs. discriminate.
   Qed.
 End Read2.
